@@ -70,7 +70,7 @@ def plan(tier, seed):
 def minimums(tier):
     return {"hlog.calls_checked": 5000, "hlog.field_lines_checked": 20000, "fields.calls_checked": 5000,
             "workload.single_byte_probes": 2000, "workload.lengths": 3000,
-            "plugin.hlog_checked": 100, "layout.compared": 40, "layout.decoded_in_plain_tree": 40, "plugin.synthetic_table_checked": 500}
+            "plugin.hlog_checked": 100, "layout.compared": 40, "layout.decoded_in_plain_tree": 40, "plugin.synthetic_table_checked": 500, "workload.whole_log_areas": 500}
 
 
 def drive(ctx, hlog, rng, path, fields, tag):
@@ -80,6 +80,12 @@ def drive(ctx, hlog, rng, path, fields, tag):
         datas.append(bytes(rng.randrange(256) for _ in range(n)))
         ctx.counters["workload.lengths"] += 1
     datas += [bytes(rl), b"\xff" * rl, bytes(rl + 5), b"\xff" * (rl + 3)]
+    # over-long data whose length is a whole number of "log areas" (the header's MEX_HLOG_SIZE, 64 in the shipped files): the
+    # fields are consumed once, from offset 0; everything else only shows in the hex dump
+    area = im.hlog_define_size(fields)
+    for mult in (1, 2, 3, 4):
+        datas.append(bytes(rng.choice([0, 1, 0xFF, rng.randrange(256)]) for _ in range(area * mult)))
+        ctx.counters["workload.whole_log_areas"] += 1
     for off in range(rl):
         b = bytearray(rl)
         b[off] = rng.choice([1, 0x80, 0xFF])
